@@ -65,6 +65,7 @@ type Case struct {
 	Msg      string    `json:"msg"`
 	Observed []TypeObs `json:"observed"`
 	Files    map[string]string `json:"files,omitempty"`
+	SameName bool      `json:"samename"` // the root package is also NAMED sub (another import path): packages are told apart by path, not by name
 }
 
 type core_ struct {
@@ -167,6 +168,7 @@ func compose(i int, rootCore, subCore []core_, rng *rand.Rand) Case {
 		}
 		group++
 		c.Consts = append(c.Consts, AConst{Pkg: root, Name: "ForeignK", Type: sub + ".T", Val: "9", Ival: 9, Isint: true, Exported: true, GoType: "sub.T", Group: group})
+		c.SameName = rng.Intn(2) == 0
 	}
 	// choose a rendering style per group
 	styles := map[int]string{}
@@ -187,11 +189,13 @@ func render(c *Case) map[string]string {
 	for _, pkg := range []string{root, sub} {
 		var b strings.Builder
 		name := fmt.Sprintf("c%d", i)
-		if pkg == sub {
+		if pkg == sub || c.SameName {
 			name = "sub"
 		}
 		fmt.Fprintf(&b, "package %s\n\n", name)
-		if pkg == root {
+		if pkg == root && c.SameName {
+			fmt.Fprintf(&b, "import subpkg %q\n\n", sub)
+		} else if pkg == root {
 			fmt.Fprintf(&b, "import %q\n\n", sub)
 		}
 		var holder []string
@@ -221,6 +225,9 @@ func render(c *Case) map[string]string {
 		fmt.Fprintf(&b, "type Holder struct {\n%s\n}\n", strings.Join(holder, "\n"))
 		rel := strings.TrimPrefix(pkg, synth.ModRoot+"/") + "/defs.go"
 		files[rel] = b.String()
+		if pkg == root && c.SameName {
+			files[rel] = strings.ReplaceAll(files[rel], " sub.", " subpkg.")
+		}
 	}
 	return files
 }
